@@ -3,7 +3,7 @@ from engine import *
 from facts import strip_generics, callee_of
 import sym
 
-CONFIGS_QUICK = ["F_all"]
+CONFIGS_QUICK = ["F_all", "F_def"]  # every configuration whose cfg-gated code the property depends on
 CONFIGS_THOROUGH = ["F_all", "F_def"]
 TECHNIQUE = 'static analysis: save/disable/restore on every exit (all paths of the three read_to_end! instantiations), loop decision table with loop-carried depth, ordering/dominance of position reads, consumed=advanced path summaries of the source helpers (running counters from back edges)'
 EXPLANATION = (
